@@ -47,10 +47,13 @@ class ScriptProcess(Process):
         for j, ev in enumerate(self.table['procs'][self.pi]['events']):
             h = self.event_handler(j, ev)
             name = 'ev%d_%d' % (self.pi, j)
+            # a locus of a sibling component is handed over as the Locus object
+            own = self.table['loci'][ev['locus']]['owner'] == self.pi
+            loc = self.lname(ev['locus']) if own else self.dynamics().loci()[self.lname(ev['locus'])]
             if ev['kind'] == 'elem':
-                self.addEventPerElement(self.lname(ev['locus']), ev['p'], h, name=name)
+                self.addEventPerElement(loc, ev['p'], h, name=name)
             else:
-                self.addFixedRateEvent(self.lname(ev['locus']), ev['p'], h, name=name)
+                self.addFixedRateEvent(loc, ev['p'], h, name=name)
 
     def setUp(self, params):
         super().setUp(params)
@@ -58,7 +61,7 @@ class ScriptProcess(Process):
 
     def event_handler(self, j, ev):
         def h(t, e):
-            member = e in self.locus(self.lname(ev['locus']))
+            member = e in self.dynamics().loci()[self.lname(ev['locus'])]
             self.rec.obs.append(['handler', ev['prog'], t, self.currentSimulationTime(), e, member])
             self.run_actions(self.table['progs'][ev['prog']], t, e)
         return h
